@@ -84,7 +84,7 @@ def check_guards(ctx, db):
         gcond = guard.child('cond')
         while gcond.k == 'BinaryOperator' and gcond.op in ('&&', '||'):
             gcond = gcond.child('lhs')
-        ok = f.cfg.node_dominates(gcond, shift) and guard.id < shift.id
+        ok = f.cfg.node_dominates(gcond, shift) and guard.pos < shift.pos
         ctx.check(ok, 'R-GUARD', '%s/guard-dominates-shift' % qn.split('::')[-1], guard.loc(), 'the overflow guard dominates the `<< num_bits`')
         st = [x for x in guard.child('then').walk() if is_assign(x) and norm(x.child('rhs').text()).endswith('ErrorCode::Overflow')]
         ret = any(r.k == 'ReturnStmt' for r in guard.child('then').walk())
@@ -127,7 +127,11 @@ def check_guards(ctx, db):
                       'overflow guard is wrong: %s' % '; '.join(problems[:3]))
 
 
+_DBREF = {}
+
+
 def check_packing(ctx, db):
+    _DBREF['db'] = db
     w = db.fn('gdstk::oasis_write_int_internal')
     r = db.fn('gdstk::oasis_read_int_internal')
     ctx.touch(w)
@@ -268,47 +272,20 @@ def sample_points():
 
 def writer_table(fn, x, y):
     """Which oasis_write_int_internal calls does the writer reach for (x, y)? -> [(bits value, n, magnitude)]
-    Straight-line interpretation of the (loop-free) writer body on concrete integers: locals, assignments,
-    if/else, conditional expressions and early returns are followed."""
+    The writer is interpreted on concrete integers by the checker's AST interpreter (locals, if/else, conditional expressions,
+    early returns, file-local helpers incl. reference out-parameters); every call of the internal varint writer is recorded."""
+    from .. import minieval as M
     out = []
-    env = {'x': x, 'y': y}
 
-    class Ret(Exception):
-        pass
-
-    def go(s):
-        if s is None or s.k == 'NullStmt':
-            return
-        if s.k == 'CompoundStmt':
-            for c in s.c:
-                go(c)
-            return
-        if s.k == 'IfStmt':
-            if ieval(s.child('cond'), env):
-                go(s.child('then'))
-            else:
-                go(s.child('else'))
-            return
-        if s.k == 'DeclStmt':
-            for v in s.c:
-                if v is not None and v.k == 'VarDecl' and v.child('init') is not None:
-                    env[v.n] = ieval(v.child('init'), env)
-            return
-        if s.k == 'ReturnStmt':
-            raise Ret()
-        if is_assign(s) and s.op == '=' and _strip_casts(s.child('lhs')).k == 'DeclRefExpr':
-            env[_strip_casts(s.child('lhs')).n] = ieval(s.child('rhs'), env)
-            return
-        if s.k == 'CallExpr' and s.callee == 'gdstk::oasis_write_int_internal':
-            nb = _strip_casts(s.args[2])
-            out.append((ieval(s.args[3], env), nb.cv if nb.cv is not None else ieval(nb, env), ieval(s.args[1], env)))
-            return
-        if not any(x.k in ('CallExpr', 'CXXMemberCallExpr', 'CompoundAssignOperator') or is_assign(x) or (x.k == 'UnaryOperator' and x.op in ('++', '--', 'post++', 'post--')) for x in s.walk()):
-            return      # effect-free expression statement, e.g. a disabled assert
-        raise AnalysisBroken('%s: statement not interpretable: %s `%s`' % (fn.qn, s.k, s.text()[:60]))
+    def hook(callee, args, node):
+        if callee == 'gdstk::oasis_write_int_internal':
+            out.append((args[3], args[2], args[1]))
+            return (0,)
+        return None
+    db = _DBREF.get('db')
     try:
-        go(fn.body)
-    except Ret:
+        M.Mini(db, hook=hook, c_ints=True).run(fn.body, {'x': x, 'y': y, 'out': ('opaque', 'out')})
+    except M.Return:
         pass
     return out
 
@@ -420,12 +397,24 @@ def check_swaps(ctx, db):
                       'swap is not the byte reversal: output bits %s' % [(j, p[j]) for j in range(w) if p[j] != want[j]][:6])
             g = next((i for i in f.body.c if i is not None and i.k == 'IfStmt'), None)
             gt = norm(g.child('cond').text()) if g is not None else ''
-            ok = g is not None and g.child('then').k == 'ReturnStmt' and g.id < st.id
-            canon[endian] = (gt, norm(clone.canon(next(l for l in f.walk() if l.k == 'ForStmt'), f, ren=clone.Renamer(f, params_by_name=True))))
+            ok = g is not None and g.child('then').k == 'ReturnStmt' and g.pos < st.pos
+            # every one of the n elements is swapped once (affine loop summary; for / while, counting up or down alike)
+            from .. import loops as LP
+            L_ = LP.enclosing_loop(st)
+            okv = False
+            if L_ is not None and len(f.params) == 2:
+                lp = LP.Loop(f, L_)
+                tgt = _strip_casts(st.child('lhs'))
+                ptr = lp.lin(tgt.child('sub'), st) if tgt.k == 'UnaryOperator' else lp.addr(tgt, st)
+                base = 'v%d:%s' % (f.params[0]['d'], f.params[0]['n'])
+                cnt = 'v%d:%s' % (f.params[1]['d'], f.params[1]['n'])
+                okv = lp.visits(ptr, base, {cnt: 1}) is not None and LP.unconditional_in(st, L_)
+            canon[endian] = (gt, okv)
             ctx.check(ok, 'R-SHAPE', '%s_endian_swap%d/host-guard' % (endian, w), f.loc(), 'returns early when the host already has that byte order (guard `%s`)' % gt)
+            ctx.check(okv, 'R-LOOP', '%s_endian_swap%d/all-elements' % (endian, w), f.loc(), 'the loop swaps each of the n elements exactly once')
         b, l = canon['big'], canon['little']
-        ok = b[1] == l[1] and (l[0] == '(!%s)' % b[0] or b[0] == '(!%s)' % l[0])
-        ctx.check(ok, 'R-CLONE', 'swap%d/big~little' % w, '', 'big- and little-endian variants are the same loop under opposite host-endianness guards', 'guards %s / %s' % (b[0], l[0]))
+        ok = (l[0] == '(!%s)' % b[0] or b[0] == '(!%s)' % l[0])
+        ctx.check(ok, 'R-CLONE', 'swap%d/big~little' % w, '', 'big- and little-endian variants run under opposite host-endianness guards (each is the exact byte reversal of every element, above)', 'guards %s / %s' % (b[0], l[0]))
 
 
 def check_reals(ctx, db):
